@@ -1,7 +1,10 @@
 """Generator of kill-plugin scenarios on a simulated cgroup tree (shared by C01, C03, C04, C07, C09, C17)."""
 from vlib import world as W
 
-NAMES = ["svc", "svc1", "svc10", "svc-a", "app", "app2", "a", "ab", "b", "db", "x"]
+# the last four are legal cgroup names that contain glob metacharacters (systemd escapes '-' in unit names as \\x2d): a child is
+# a directory entry, never a pattern
+NAMES = ["svc", "svc1", "svc10", "svc-a", "app", "app2", "a", "ab", "b", "db", "x", "app\\x2dhog.service", "w[1]", "s*r", "q?z"]
+GLOBCHARS = set("\\*?[]{}")
 HDD = [1.31e-3, 1.13e-7, 2.58e-1, 5.04e-7, 0, 0]
 SSD = [1.21e-2, 6.25e-7, 1.07e-3, 2.61e-7, 2.37e-2, 9.10e-10]
 PLUGINS = ["kill_by_memory_size_or_growth", "kill_by_swap_usage", "kill_by_pressure", "kill_by_io_cost", "kill_by_pg_scan"]
@@ -161,7 +164,8 @@ def kill_args(rng, plugin, patterns, recursive=None, dry=False, **force):
 
 
 def patterns_for(rng, info, base="wl"):
-    kids = info[base]["children"]
+    # a literal pattern naming a child whose name has glob metacharacters would not mean that child
+    kids = [k for k in info[base]["children"] if not (set(k) & GLOBCHARS)]
     choice = rng.random()
     if choice < 0.3 or not kids:
         return [base + "/*"]
